@@ -40,7 +40,7 @@ def temperature(draw, nlayers, allow=('iso', 'ctrl')):
 
 
 @st.composite
-def world(draw, layers=(2, 40), nwn=(1, 12), max_active=3, mags=None, temps=('iso', 'ctrl'),
+def world(draw, layers=(2, 40), nwn=(1, 12), max_active=3, mags=None, temps=('ctrl', 'iso', 'ctrl'),
           extras=('CIA', 'Rayleigh', 'SimpleClouds')):
     combos = [[]] + [[e] for e in extras] + [list(extras[:2]), list(extras)] if extras else [[]]
     ex = sorted(draw(st.sampled_from(combos)))
@@ -50,7 +50,7 @@ def world(draw, layers=(2, 40), nwn=(1, 12), max_active=3, mags=None, temps=('is
     mols = draw(st.permutations(MOLS))[:nact]
     gases = []
     for m in mols:
-        gases.append({'mol': m, 'logmix': draw(fl(-9.0, -0.7)),
+        gases.append({'mol': m, 'logmix': draw(fl(-6.5, -0.7)),
                       # None: constant with height; else log10 ratio of top to bottom abundance
                       'logtop': draw(st.sampled_from([None, None, -3.0, -1.0, 1.0])),
                       'table': draw(table(nw, mag=(draw(st.sampled_from(mags)) if mags else None)))})
